@@ -13,6 +13,8 @@
  *   mute      (tls-based) the TCP peer accepts but never speaks TLS; later it closes
  *   garbage   (tls-based) the TCP peer answers the ClientHello with garbage
  *   idle      server socket with nobody connecting: accept reports EAGAIN, the descriptor stays quiet
+ *   ctlflood  as normal, with the control interface enabled and a control client that sends requests to the
+ *             connecting side's control socket and never reads the replies, while the applications keep calling
  *
  * Every API call on the (non-blocking) sockets is one trace line with the
  * call's result, the number of waiting primitives seen inside it (w), and the
@@ -33,6 +35,9 @@
 #include <string.h>
 #include <sys/ioctl.h>
 #include <sys/socket.h>
+#include <sys/un.h>
+#include <dirent.h>
+#include <sys/stat.h>
 #include <time.h>
 #include <unistd.h>
 
@@ -41,6 +46,7 @@
 #include <xcm_attr_map.h>
 
 #include "shim.h"
+#include "ctl_proto.h"
 
 /* the link line wraps these seams for harness/conn_exec; here they are passed through */
 int __real_xcm_tp_socket_send(struct xcm_socket *s, const void *buf, size_t len);
@@ -337,7 +343,16 @@ static void run(void)
     shim_reset();
     tcp_based = strcmp(tp, "ux") != 0 && strcmp(tp, "uxf") != 0;
     tls_based = strcmp(tp, "tls") == 0 || strcmp(tp, "btls") == 0 || strcmp(tp, "utls") == 0;
-    bool normal = strcmp(scen, "normal") == 0, refused = strcmp(scen, "refused") == 0,
+    bool ctlflood = strcmp(scen, "ctlflood") == 0;
+    char ctldir[300] = "";
+    if (ctlflood) {
+	const char *d = getenv("VERIF_RUN_DIR");
+	snprintf(ctldir, sizeof(ctldir), "%s/ctl-%d-%ld", d ? d : ".", getpid(), seq);
+	mkdir(ctldir, 0700);
+	setenv("XCM_CTL", ctldir, 1);
+    } else
+	setenv("XCM_CTL", "/nonexistent-verif", 1);
+    bool normal = strcmp(scen, "normal") == 0 || ctlflood, refused = strcmp(scen, "refused") == 0,
 	 silent = strcmp(scen, "silent") == 0, release = strcmp(scen, "release") == 0,
 	 mute = strcmp(scen, "mute") == 0, garbage = strcmp(scen, "garbage") == 0, idle = strcmp(scen, "idle") == 0;
     int up = 1;
@@ -414,6 +429,7 @@ static void run(void)
 	want_send[1] = want_send[2] = 2;
 
     long t0 = now_ms();
+    int ctlfd = -1, ctlfds[4], nctl = 0, ctl_calls = 0;
     int quiet = 0, stuck = 0, turns = 0;
     int quiet_limit = release ? 200 : 80;	/* x 25 ms; "release" depends on the kernel's 1 s SYN retransmission */
     bool released = false, rclosed = false, rgarb = false;
@@ -478,10 +494,54 @@ static void run(void)
 	    emit("env", 0, 0, 0, 4, 0);
 	}
 
+	/* the control client: connects to the control socket of the connecting side once it is established, sends a
+	   burst of get-all requests and never reads a reply; the library serves it from inside the data-path calls */
+	if (ctlflood && ctlfd == -1 && est[1] && est[2]) {
+	    ctlfd = -2;
+	    DIR *dd = opendir(ctldir);
+	    struct dirent *de;
+	    while (dd && (de = readdir(dd)) != NULL) {
+		if (strncmp(de->d_name, "ctl-", 4) != 0)
+		    continue;
+		struct sockaddr_un ua = { .sun_family = AF_UNIX };
+		snprintf(ua.sun_path, sizeof(ua.sun_path), "%s/%s", ctldir, de->d_name);
+		int cf = socket(AF_UNIX, SOCK_SEQPACKET | SOCK_NONBLOCK, 0);
+		if (connect(cf, (struct sockaddr *)&ua, sizeof(ua)) == 0) {
+		    static struct ctl_proto_msg req;
+		    memset(&req, 0, sizeof(req));
+		    req.type = ctl_proto_type_get_all_attr_req;
+		    int nsentreq = 0;
+		    for (int i = 0; i < 12; i++)
+			if (send(cf, &req, sizeof(req), MSG_NOSIGNAL) == (ssize_t)sizeof(req))
+			    nsentreq++;
+		    ctlfds[nctl++] = cf;
+		    emit("env", 0, nsentreq, 0, 5, 0);
+		    if (nctl == 4)
+			break;
+		} else
+		    close(cf);
+	    }
+	    if (dd)
+		closedir(dd);
+	    /* plenty of calls, so that the control interface gets its turns (every few calls that report EAGAIN) */
+	    want_send[1] += 40;
+	    want_send[2] += 40;
+	    ctl_calls = 400;
+	}
+	while (ctlflood && ctl_calls > 0) {
+	    ctl_calls--;
+	    int e = 1 + (int)(rnd() % 2);
+	    if (so[e] && !term[e]) {
+		int k = (int)(rnd() % 4);
+		if (k == 0) do_finish(e); else if (k <= 2) do_receive(e); else do_misc(e);
+	    }
+	}
+
 	/* done? */
 	bool done = false;
 	if (normal)
-	    done = so[1] && so[2] && rcvd[1] >= want_send[2] && rcvd[2] >= want_send[1] && est[1] && est[2];
+	    done = so[1] && so[2] && rcvd[1] >= want_send[2] && rcvd[2] >= want_send[1] && est[1] && est[2] &&
+		   (!ctlflood || (ctlfd != -1 && ctl_calls == 0));
 	else if (idle)
 	    done = idle_probes >= 6;
 	else if (release)
@@ -576,6 +636,10 @@ static void run(void)
 	    sent[1], sent[2], rcvd[1], rcvd[2], bad_order[1], bad_order[2], so[2] != NULL, close_seen, released, rclosed, rgarb);
     for (int e = 1; e <= 3; e++)
 	close_so(e);
+    for (int i = 0; i < nctl; i++)
+	close(ctlfds[i]);
+    if (ctlflood)
+	rmdir(ctldir);
     cleanup();
 }
 
